@@ -30,39 +30,5 @@ fn u05_set_read_only_transitions() {
     }
 }
 
-// decode is total on short inputs (header paths) and only accepts the state record type
-#[kani::proof]
-#[kani::unwind(8)]
-fn u05_state_decode_total() {
-    let b: [u8; 4] = kani::any();
-    let n: usize = kani::any();
-    kani::assume(n <= 4);
-    match State::parse(parse::Input::new(&b[..n])) {
-        Ok((_, s)) => {
-            assert!(b[0] == 0x43 && n >= 2 && b[1] == 0);
-            assert!(s.shared_heads.is_empty());
-            assert!(!s.in_flight && !s.have_responded && !s.read_only && s.their_have == Some(Vec::new()));
-        }
-        Err(_) => {}
-    }
-}
-
-// encode / parse round trip with one shared head: the persisted field survives, session fields reset
-#[kani::proof]
-#[kani::unwind(34)]
-fn u05_state_roundtrip_1() {
-    let mut s = State::new();
-    s.shared_heads = vec![ChangeHash(kani::any())];
-    s.in_flight = kani::any();
-    s.have_responded = kani::any();
-    let b = s.encode();
-    assert!(b.len() == 34);
-    match State::parse(parse::Input::new(&b)) {
-        Ok((rest, d)) => {
-            assert!(rest.is_empty());
-            assert!(d.shared_heads.len() == 1 && d.shared_heads[0].0 == s.shared_heads[0].0);
-            assert!(!d.in_flight && !d.have_responded && d.their_heads.is_none() && d.sent_hashes.is_empty());
-        }
-        Err(_) => panic!("state round trip failed"),
-    }
-}
+// (State::encode/parse round trip and decode totality were tried here: CBMC exceeds the 14 GB memory limit /
+// 10 min even for one shared head, so no obligation about State persistence is offered -- see DESIGN.md U05)
